@@ -6,6 +6,7 @@ import os
 
 from hypothesis import strategies as st
 
+from vf import pins
 from vf.core import EnumPart, HarnessError, HypPart, Oracle, VERIF_DIR, spsdk_frame
 from vf.gen import keys as K
 from vf.ref import rot as R
@@ -548,4 +549,5 @@ def parts(ctx):
     _CTX.update(fams=fams, work=ctx.work, pfr=pfr, revs=revs, ahab_pairs=ahab_pairs, rev_families=sorted(revs), latest=latest)
     nf = len(_CTX["rev_families"])
     return [HypPart("rot", _case(fams), run_case, {"quick": 900, "thorough": 40000}),
-            EnumPart("revisions", lambda tier: 2 * nf, lambda tier, i: {"i": i % nf, "reverse": i >= nf}, run_revisions, exhaustive=True)]
+            EnumPart("revisions", lambda tier: 2 * nf, lambda tier, i: {"i": i % nf, "reverse": i >= nf}, run_revisions, exhaustive=True),
+            pins.part(["cert_block"], 100)]  # which root-of-trust construction a device's ROM checks
